@@ -20,9 +20,9 @@ from engine.universe import SpecUnavailable
 from engine import contracts as CT
 
 LEVEL = 'proof'
-SCENS_QUICK = ['onshell', 'onshell_vac', 'fluid', 'fluid_rho0zero', 'freeT', 'shift_y', 'noshift', 'default']
-SCENS_THOROUGH = ['onshell', 'onshell_vac', 'onshell_comp', 'onshell_fluidtetrad', 'fluid', 'fluid_comp', 'fluid_rho0zero', 'fluid_atrest', 'freeT', 'shift_y',
-                  'noshift', 'default']
+SCENS_QUICK = ['onshell', 'onshell_vac', 'onshell_comp', 'fluid', 'fluid_comp', 'fluid_rho0zero', 'freeT', 'shift_y', 'shift_z', 'noshift', 'noshift_dtshift', 'default']
+SCENS_THOROUGH = ['onshell', 'onshell_vac', 'onshell_comp', 'onshell_fluidtetrad', 'fluid', 'fluid_comp', 'fluid_rho0zero', 'fluid_atrest', 'freeT', 'shift_x', 'shift_y',
+                  'shift_z', 'noshift', 'noshift_dtshift', 'default']
 NO_CONTRACT = {
     'Psi4_lm': 'grid-extent dependent (interpolation onto spheres): decided in C20, not pointwise',
     'null_ray_exp_out': 'depends on the grid coordinates through cartesian_to_spherical (sign/arccos): the helper null_ray_expansion is under contract instead',
